@@ -178,6 +178,8 @@ pub fn all_framings() -> Vec<Framing> {
 pub fn quick_framings() -> Vec<Framing> {
     let mut v = vec![Framing::Plain, Framing::Cobs];
     v.extend(ONE_PER_WIDTH.iter().map(|a| Framing::Crc(*a)));
+    // C32C goes through the crate-root convenience wrappers (to_slice_crc32, to_vec_crc32, ...)
+    v.push(Framing::Crc(CrcAlgo::C32C));
     v
 }
 
